@@ -29,7 +29,7 @@ PROPS["C05"] = dict(
          "(Python forms and the C forms translated from bitstring.h and bitstring.c on every run), the string "
          "generators (reference enumerations, Gosper's hack on 64-bit words), Knowles-Handy addressing, the string "
          "table, the single-excitation tables, the operator-string maps and the k-fold annihilation maps between "
-         "sectors; the de-excitation rows and the sector linking are executable Lean models compared entry by entry with the real library for every "
+         "sectors and the de-excitation rows; the sector linking is an executable Lean model compared entry by entry with the real library for every "
          "(norb<=6/9, nele) and the 31..64 orbital boundary families.",
     note="Lean kernel; translator cbits.py gives C uint64_t the meaning BitVec 64 and __builtin_popcountll the "
          "meaning 'number of set bits'; that the real builders execute the modelled loops is established by the "
